@@ -30,6 +30,9 @@
 //                                                 keep=1: unsynced on-disk SM updates survived; the log is then
 //                                                 re-delivered from (recovered index + 1 - overlap) in tasks of <split> entries
 //   I <overlap> <split>                           A saves a snapshot, B installs it, then is re-delivered the rest
+//   P                                             A saves a snapshot and keeps the record (its LogReader does)
+//   K <overlap> <split>                           B installs the record A's LogReader holds in memory — saved by an earlier P / I,
+//                                                 A may have applied any number of entries and config changes since — then gets the rest
 //   T <j> <r|x> <override> <overhead> <cindex>    the pending task goes to B and B saves FROM INSIDE it: right after the
 //                                                 first entry at or after the j-th of the task has been reported (per-entry
 //                                                 apply path, concurrent / on-disk kinds; otherwise after the task)
@@ -198,6 +201,7 @@ func (w *world) request(r *replica, f []string) hk.SSRequest {
 
 // afterSave: what the step worker does next (removeLog) and the compaction monitors
 func (w *world) afterSave(r *replica, tag string, idx uint64, nrm int) {
+	w.noteRecord(r, idx)
 	w.emit(fmt.Sprintf("%s idx=%d pending=%d", tag, idx, r.node.PendingCompactLogTo()))
 	if p := r.node.PendingCompactLogTo(); p > r.ldb.ss.Index {
 		w.viol = append(w.viol, fmt.Sprintf("COMPACTION-ABOVE-SNAPSHOT replica %s published compaction index %d while its newest recorded snapshot is %d", r.name, p, r.ldb.ss.Index))
@@ -471,19 +475,68 @@ func (w *world) restartB(f []string) {
 // install: A saves, the snapshot file is copied into B's snapshot directory the
 // way the chunk receiver leaves it, the record is made durable in B's log store
 // (engine: SaveRaftState, flag file removed), then processSnapshot + recover.
-func (w *world) install(f []string) {
-	ov, split := u(f[1]), u(f[2])
+// checkRecords: the snapshot record a save returned is kept in memory by the
+// LogReader and is what goes into InstallSnapshot messages; whatever the replica
+// applies afterwards, it must go on describing the replica at ITS index
+func (w *world) checkRecords(r *replica) {
+	ss := r.node.LogReaderSnapshot()
+	if pb.IsEmptySnapshot(ss) {
+		return
+	}
+	if was, ok := r.saved[ss.Index]; ok {
+		if now := recordText(ss); now != was {
+			w.viol = append(w.viol, fmt.Sprintf("SNAPSHOT-RECORD-CHANGED the record of replica %s's snapshot %d was [%s] when the save returned and is [%s] after further applies", r.name, ss.Index, was, now))
+			delete(r.saved, ss.Index)
+		}
+	}
+}
+
+func (w *world) noteRecord(r *replica, idx uint64) {
+	if idx == 0 {
+		return
+	}
+	if ss := r.node.LogReaderSnapshot(); ss.Index == idx {
+		if r.saved == nil {
+			r.saved = map[uint64]string{}
+		}
+		r.saved[idx] = recordText(ss)
+	}
+}
+
+// saveA: the uninterrupted replica saves a snapshot (periodic request)
+func (w *world) saveA() uint64 {
 	w.flush()
 	idx, err := w.A.node.DoSave(hk.SSRequest{})
 	if err != nil {
 		panic(err)
 	}
+	w.noteRecord(w.A, idx)
+	return idx
+}
+
+// install: A saves and B installs the record right away
+func (w *world) install(f []string) {
+	idx := w.saveA()
+	w.installFrom("I", fmt.Sprintf("saved=%d", idx), u(f[1]), u(f[2]))
+}
+
+// installFrom: the snapshot record A's LogReader holds in memory (possibly saved
+// many entries ago) goes to B in an InstallSnapshot message; the snapshot file is
+// copied into B's snapshot directory the way the chunk receiver leaves it, the
+// record is made durable in B's log store (engine: SaveRaftState, flag file
+// removed), then processSnapshot + recover, then the log after it.
+func (w *world) installFrom(tag string, head string, ov uint64, split uint64) {
+	w.flush()
+	w.checkRecords(w.A)
 	ss := w.A.node.LogReaderSnapshot()
 	b := w.B
 	if pb.IsEmptySnapshot(ss) || ss.Index <= b.view().LastIndex {
 		// raft only restores a snapshot that is ahead of what the replica has
-		w.emit(fmt.Sprintf("I saved=%d nothing-to-install", idx))
+		w.emit(fmt.Sprintf("%s %s nothing-to-install", tag, head))
 		return
+	}
+	if ss.Index < uint64(w.flushed) {
+		w.feat["install-of-older-record"] = true
 	}
 	env := b.node.SnapshotEnv(ss.Index)
 	// the record travels in an InstallSnapshot message
@@ -519,7 +572,7 @@ func (w *world) install(f []string) {
 	b.printed = b.view().Index
 	b.removeLog()
 	w.cur = ""
-	w.emit(fmt.Sprintf("I saved=%d from=%d %s | %s", idx, got, b.obs(), b.aux()))
+	w.emit(fmt.Sprintf("%s %s from=%d %s | %s", tag, head, got, b.obs(), b.aux()))
 	w.newRemovals(b, nrm)
 	if got > 0 {
 		w.feat["install"] = true
@@ -571,7 +624,7 @@ func (w *world) op(o string) {
 	if len(f) == 0 {
 		return
 	}
-	need := map[string]int{"a": 5, "c": 6, "t": 1, "b": 1, "y": 1, "L": 1, "S": 6, "R": 4, "I": 3, "T": 6, "M": 3, "W": 4}
+	need := map[string]int{"a": 5, "c": 6, "t": 1, "b": 1, "y": 1, "L": 1, "S": 6, "R": 4, "I": 3, "T": 6, "M": 3, "W": 4, "P": 1, "K": 3}
 	if n, ok := need[f[0]]; !ok || len(f) != n {
 		w.emit("? " + f[0])
 		return
@@ -609,6 +662,10 @@ func (w *world) op(o string) {
 		w.restartB(f)
 	case "I":
 		w.install(f)
+	case "P":
+		w.emit(fmt.Sprintf("P saved=%d", w.saveA()))
+	case "K":
+		w.installFrom("K", "record", u(f[1]), u(f[2]))
 	case "T":
 		w.saveInTask(w.B, f)
 	case "M":
@@ -679,6 +736,8 @@ func runCase(line string, st *vh.Stats) []string {
 				w.B.lag = false
 				w.catchUp(w.B, w.B.view().Index+1, 0)
 			}
+			w.checkRecords(w.A)
+			w.checkRecords(w.B)
 			w.emit("A " + w.A.obs())
 			w.emit("A.aux " + w.A.aux())
 			w.emit("B " + w.B.obs())
@@ -696,7 +755,7 @@ func runCase(line string, st *vh.Stats) []string {
 	}
 	keys := []string{}
 	for _, k := range []string{"snapshot", "restart-from-snapshot", "install", "overlap", "compaction", "update-during-save", "lag", "ondisk-init-skip",
-		"save-inside-task", "stream", "stream-refused", "stream-request-in-replay-window"} {
+		"save-inside-task", "install-of-older-record", "stream", "stream-refused", "stream-request-in-replay-window"} {
 		if w.feat[k] {
 			keys = append(keys, k)
 			st.Count("case with " + k)
